@@ -16,6 +16,7 @@ import IgVerif.Model.Scan
 import IgVerif.Model.Determinism
 import IgVerif.Model.Macro
 import IgVerif.Model.Export
+import IgVerif.Model.Comments
 /-! `igdriver <model>`: reads one op per line on stdin, prints one answer per line.
 Byte strings are hex ("-" = empty). -/
 open IgVerif
@@ -682,6 +683,17 @@ def exportStep (_ : Unit) (toks : List String) : IO (Unit × String) := do
     | none => return ((), "bad-op")
   | _ => return ((), "bad-op")
 
+/-! ### comments -/
+def commentsStep (_ : Unit) (toks : List String) : IO (Unit × String) := do
+  match toks with
+  | "claim" :: n :: rest =>
+    let k := n.toNat?.getD 0
+    let cs : List Cm.Comment := (rest.take k).map fun t => ⟨t.toNat?.getD 0, 0⟩
+    let lines := (rest.drop k).map fun t => t.toNat?.getD 0
+    let log := Cm.claimAll cs lines
+    return ((), " ".intercalate (log.map fun p => s!"{p.1}:" ++ (match p.2 with | some i => toString i | none => "-")))
+  | _ => return ((), "bad-op")
+
 def main (args : List String) : IO UInt32 := do
   let stdin ← IO.getStdin
   match args with
@@ -700,4 +712,5 @@ def main (args : List String) : IO UInt32 := do
   | ["det"] => loop stdin detStep (); return 0
   | ["macro"] => loop stdin macroStep (); return 0
   | ["export"] => loop stdin exportStep (); return 0
+  | ["comments"] => loop stdin commentsStep (); return 0
   | _ => IO.eprintln "usage: igdriver <model>"; return 2
